@@ -12,14 +12,11 @@ structure Sink where
   limit : Option Nat := none
 deriving Repr, DecidableEq
 
-/-- one Write call on the destination: bytes accepted and whether it reported success -/
-def Sink.write (s : Sink) (b : Bytes) : Sink × Nat × Bool :=
+/-- how many bytes of a Write of `len` bytes the destination takes -/
+def Sink.room (s : Sink) (len : Nat) : Nat :=
   match s.limit with
-  | none => ({ s with acc := s.acc ++ b }, b.length, true)
-  | some k =>
-    let room := k - s.acc.length
-    if b.length ≤ room then ({ s with acc := s.acc ++ b }, b.length, true)
-    else ({ s with acc := s.acc ++ b.take room }, room, false)
+  | none => len
+  | some k => min len (k - s.acc.length)
 
 structure MW where
   n    : Nat := 0
@@ -27,27 +24,27 @@ structure MW where
   sink : Sink := {}
 deriving Repr, DecidableEq
 
-def MW.guarded (m : MW) (b : Bytes) : MW :=
-  if m.err then m
-  else
-    let (s, k, ok) := m.sink.write b
-    { n := m.n + k, err := !ok, sink := s }
+/-- one Write call on the destination, not guarded by the sticky error: the destination takes what
+    fits, the count grows by that, the error is set when not everything fitted -/
+def MW.put (m : MW) (b : Bytes) : MW :=
+  { n := m.n + m.sink.room b.length,
+    err := m.err || decide (m.sink.room b.length < b.length),
+    sink := { m.sink with acc := m.sink.acc ++ b.take (m.sink.room b.length) } }
+
+/-- msgWriter.Write / writeString: nothing happens once the error is set -/
+def MW.guarded (m : MW) (b : Bytes) : MW := if m.err then m else m.put b
+
+def MW.setErr (m : MW) (v : Bool) : MW := { m with err := v }
 
 def step (m : MW) : WAct → MW
-  | .w pre b =>
-    let m := match pre with
-      | some v => { m with err := v }
-      | none => m
-    m.guarded b
+  | .w none b => m.guarded b
+  | .w (some v) b => (m.setErr v).guarded b
   | .body direct b pf =>
     if m.err then m
     else
-      let m := if pf then { m with err := true } else m
-      if direct then
-        -- io.Copy(mw.writer, &writeBuffer): not guarded by mw.err, bytes added to bytesWritten
-        let (s, k, ok) := m.sink.write b
-        { n := m.n + k, err := m.err || !ok, sink := s }
-      else m.guarded b
+      let m' := if pf then m.setErr true else m
+      -- depth 0: io.Copy(mw.writer, &writeBuffer) is not guarded by mw.err
+      if direct then m'.put b else m'.guarded b
 
 def exec (plan : List WAct) (m : MW) : MW := plan.foldl step m
 
